@@ -23,6 +23,12 @@ use syn::{BinOp, Expr, Lit, Pat, Stmt, UnOp};
 
 pub type R<T> = Result<T, String>;
 
+/// widening for the rest of track_sizing.rs (`while`, `break` in the middle of a loop body, loops over `&mut` elements that also assign outer
+/// locals, `min_by(total_cmp)`, decimal literals, nested `const`s, closure parameters whose result can be `f32::INFINITY`): a child module, so
+/// that it sees the private parts of the translator
+#[path = "tracks2.rs"]
+pub mod tracks2;
+
 // ------------------------------------------------------------------------------------------------ types
 
 #[derive(Clone, PartialEq, Debug)]
@@ -580,6 +586,8 @@ pub struct Cx<'a> {
     pub(crate) tag_payload: Vec<(String, Option<String>)>,
     /// the fuel (a Lean term over the parameters) of the function's `loop { … break }`, the one the hand-written model uses
     pub loop_fuel: Option<String>,
+    /// see `tracks2::FnOpts`
+    pub opts: tracks2::FnOpts,
 }
 
 fn path_segs(p: &syn::Path) -> Vec<String> {
@@ -683,8 +691,8 @@ impl<'ast, 'r> syn::visit::Visit<'ast> for AssignScan<'r> {
                     }
                 }
             }
-            // `v.iter_mut()….for_each(|x| x.f = …)`
-            Expr::MethodCall(m) if m.method == "for_each" && m.args.len() == 1 => {
+            // `v.iter_mut()….for_each(|x| x.f = …)` / `v.iter_mut()….map(|x| … x.update() …)`
+            Expr::MethodCall(m) if (m.method == "for_each" || (m.method == "map" && tracks2::roots_in_iter_mut(&m.receiver))) && m.args.len() == 1 => {
                 if let Expr::Closure(c) = strip(&m.args[0]) {
                     if let Some(Pat::Ident(i)) = c.inputs.first() {
                         let mut sub = AssignScan { reg: self.reg, local_mut_fns: self.local_mut_fns.clone(), assigned: vec![], declared: vec![] };
@@ -734,6 +742,7 @@ impl<'a> Cx<'a> {
             lean_name: String::new(),
             tag_payload: vec![],
             loop_fuel: None,
+            opts: Default::default(),
         }
     }
 
@@ -764,6 +773,7 @@ impl<'a> Cx<'a> {
     }
     /// bind an effectful term, answer the variable
     fn hoist(&mut self, x: X) -> X {
+        let x = if self.opts.prog_mode { tracks2::lift_except(x) } else { x };
         let n = self.fresh_name("t");
         self.emit(St::Bind(n.clone(), x));
         X::A(n)
@@ -907,6 +917,8 @@ impl<'a> Cx<'a> {
                         Ok((X::a("Num.two"), T::F32))
                     } else if v.fract() == 0.0 && v > 0.0 && v < 1e6 {
                         Ok((X::app("Num.ofNat", vec![X::A(format!("{}", v as u64))]), T::F32))
+                    } else if let Some(x) = tracks2::decimal_literal(f.base10_digits()) {
+                        Ok((x, T::F32))
                     } else {
                         Err(format!("float literal {v} has no exact counterpart in `Num`"))
                     }
@@ -965,6 +977,7 @@ impl<'a> Cx<'a> {
                 }
                 Ok((X::Tuple(ls), T::Tuple(ts)))
             }
+            Expr::Cast(c) if matches!(&*c.ty, syn::Type::BareFn(_)) => self.fn_pointer_cast(c, expect),
             Expr::Cast(c) => {
                 let to = self.rust_ty(&c.ty)?;
                 let (v, vt) = self.expr(&c.expr, &T::Unknown)?;
@@ -1002,6 +1015,9 @@ impl<'a> Cx<'a> {
                 if matches!(&*i.cond, Expr::Let(_)) {
                     return Err("`if let` used as a value".into());
                 }
+                if let Some(r) = self.finite_or(i)? {
+                    return Ok(r);
+                }
                 let (c, ct) = self.expr(&i.cond, &T::Bool)?;
                 if ct != T::Bool {
                     return Err("`if` condition is not a bool".into());
@@ -1034,13 +1050,18 @@ impl<'a> Cx<'a> {
                     _ => return Err(format!("indexing a value of type {:?}", bt)),
                 };
                 let (i, it) = self.expr(&ix.index, &T::Usize)?;
+                if it == T::Tuple(vec![T::Usize, T::Usize]) {
+                    // `&v[a..b]` with the range held in a value: panics out of range
+                    let x = self.hoist(X::app("Slice.indexRange", vec![b, i]));
+                    return Ok((x, T::list(et)));
+                }
                 if !it.is_int() {
                     return Err("index is not an integer".into());
                 }
                 let x = self.hoist(X::app("Slice.index", vec![b, i]));
                 Ok((x, et))
             }
-            Expr::Closure(_) => Err("closure outside a whitelisted method call".into()),
+            Expr::Closure(_) => self.closure_value(e, expect),
             _ => Err(format!("unsupported expression `{}`", q(e))),
         }
     }
@@ -1075,6 +1096,9 @@ impl<'a> Cx<'a> {
         match e {
             Expr::Paren(p) => self.tail_of(&p.expr, expect),
             Expr::If(i) if !matches!(&*i.cond, Expr::Let(_)) && i.else_branch.is_some() => {
+                if let Some((x, t)) = self.finite_or(i)? {
+                    return Ok((Tail::Val(x), t));
+                }
                 let (c, ct) = self.expr(&i.cond, &T::Bool)?;
                 if ct != T::Bool {
                     return Err("`if` condition is not a bool".into());
@@ -1291,6 +1315,10 @@ impl<'a> Cx<'a> {
         // (`Slice.Ext.toFinite`, an explicit outcome)
         if lt == T::Ext || rt == T::Ext {
             let demote_both = matches!(b.op, BinOp::Mul(_) | BinOp::Div(_));
+            if self.opts.ext_div && matches!(b.op, BinOp::Div(_)) && lt == T::Ext && rt == T::F32 {
+                // `(limit − x) / p` with a possibly infinite limit stays extended (see `Slice.Ext.divF` for the convention)
+                return Ok((X::app("Slice.Ext.divF", vec![l, r]), T::Ext));
+            }
             if demote_both {
                 if lt == T::Ext {
                     l = self.hoist(X::app("Slice.Ext.toFinite", vec![l]));
@@ -1901,6 +1929,7 @@ impl<'a> Cx<'a> {
                 continue;
             }
             let (l, t) = self.expr(a, &pt_i)?;
+            let (l, t) = if matches!((&t, &pt_i), (T::Ext, T::F32)) { (self.hoist(X::app("Slice.Ext.toFinite", vec![l])), T::F32) } else { (l, t) };
             if !pt.unify(&t, sub) && !matches!((&t, &pt_i), (T::F32, T::Ext)) {
                 return Err(format!("argument of type {:?} where {what} expects {:?}", t, pt));
             }
@@ -2122,6 +2151,12 @@ impl<'a> Cx<'a> {
             // `f32_min` with an operand that can be infinite
             if name == "f32_min" && args.len() == 2 {
                 let ts: Vec<Option<T>> = args.iter().map(|a| self.peek_type(a)).collect();
+                if ts[0] == Some(T::Ext) && ts[1] == Some(T::F32) {
+                    // the minimum with a finite value is finite
+                    let (e, _) = self.expr(args[0], &T::Ext)?;
+                    let (x, _) = self.expr(args[1], &T::F32)?;
+                    return Ok((X::app("Slice.Ext.minF", vec![e, x]), T::F32));
+                }
                 if ts.iter().any(|t| *t == Some(T::Ext)) {
                     let mut ls = vec![];
                     for a in &args {
@@ -2275,6 +2310,9 @@ impl<'a> Cx<'a> {
             }
             return Err(format!("`{}`: method `{name}` of CompactLength is not translated", q(m)));
         }
+        if name == "map" && args.len() == 1 && tracks2::roots_in_iter_mut(&m.receiver) {
+            return self.iter_mut_filter_map(m);
+        }
         // `.map(f).sum()`: the closure may panic
         if name == "sum" && args.is_empty() {
             return self.sum(m, expect);
@@ -2377,8 +2415,10 @@ impl<'a> Cx<'a> {
             (T::List(_), "is_empty") if none => Ok((X::app("List.isEmpty", vec![recv]), T::Bool)),
             (T::List(_), "len" | "count") if none => Ok((X::app("List.length", vec![recv]), T::Usize)),
             (T::List(_), "rev") if none => Ok((X::app("List.reverse", vec![recv]), rt.clone())),
+            (T::List(t), "min_by") if args.len() == 1 => self.min_by(recv, t, args[0]),
+            (T::List(t), "max_by") if args.len() == 1 => self.max_by(recv, t, args[0]),
             (T::List(t), "map") if args.len() == 1 => {
-                let (f, ft, eff) = self.closure(args[0], &[(**t).clone()], &T::Unknown, false)?;
+                let (f, ft, eff) = self.fn_value(args[0], &[(**t).clone()], &T::Unknown)?;
                 if eff {
                     return Err("`map` with a closure that can panic is only translated when `sum()` consumes it directly".into());
                 }
@@ -2392,7 +2432,7 @@ impl<'a> Cx<'a> {
                 Ok((X::app("List.filter", vec![f, recv]), rt.clone()))
             }
             (T::List(t), "any" | "all") if args.len() == 1 => {
-                let (f, ft, eff) = self.closure(args[0], &[(**t).clone()], &T::Bool, false)?;
+                let (f, ft, eff) = self.fn_value(args[0], &[(**t).clone()], &T::Bool)?;
                 if ft != T::Bool || eff {
                     return Err(format!("`{name}` closure: not a pure predicate"));
                 }
@@ -2442,7 +2482,7 @@ impl<'a> Cx<'a> {
                     T::List(t) => *t,
                     t => return Err(format!("`map(..).sum()` over a value of type {:?}", t)),
                 };
-                let (f, ft, eff) = self.closure(&mm.args[0], &[et], &want, want == T::U16)?;
+                let (f, ft, eff) = if matches!(strip(&mm.args[0]), Expr::Closure(_)) { self.closure(&mm.args[0], &[et], &want, want == T::U16)? } else { self.fn_value(&mm.args[0], &[et], &want)? };
                 (l, Some(f), ft, eff)
             }
             r => {
@@ -2553,7 +2593,9 @@ impl<'a> Cx<'a> {
     fn stmt(&mut self, st: &Stmt) -> R<()> {
         match st {
             Stmt::Item(syn::Item::Use(_)) => Ok(()),
+            Stmt::Item(syn::Item::Fn(f)) if self.local_fns.contains_key(&f.sig.ident.to_string()) => Ok(()),
             Stmt::Item(syn::Item::Fn(f)) => self.nested_fn(f),
+            Stmt::Item(syn::Item::Const(c)) => self.nested_const(c),
             Stmt::Item(_) => Err("nested item".into()),
             Stmt::Macro(m) if is_skipped_macro(&m.mac) => Ok(()),
             Stmt::Macro(m) => Err(format!("unsupported statement macro `{}`", q(m))),
@@ -2574,7 +2616,7 @@ impl<'a> Cx<'a> {
 
     fn nested_fn(&mut self, f: &syn::ItemFn) -> R<()> {
         let name = f.sig.ident.to_string();
-        let plan = FnPlan { head: String::new(), rust_name: name.clone(), lean_name: format!("{}.{}", self.lean_name, ident(&name)), self_ty: None, generics: HashMap::new(), sig: &f.sig, block: &f.block, doc: Some(format!(" (nested in `{}`)", self.lean_name)), ext_ret: false, loop_fuel: None };
+        let plan = FnPlan { head: String::new(), rust_name: name.clone(), lean_name: format!("{}.{}", self.lean_name, ident(&name)), self_ty: None, generics: HashMap::new(), sig: &f.sig, block: &f.block, doc: Some(format!(" (nested in `{}`)", self.lean_name)), ext_ret: false, loop_fuel: self.opts.nested_fuel.clone(), opts: self.opts.clone() };
         let (text, sig) = translate_fn(self.env.w, self.env.reg, &plan)?;
         self.nested_text.push_str(&text);
         self.local_fns.insert(name, sig);
@@ -2601,6 +2643,9 @@ impl<'a> Cx<'a> {
         };
         if init.diverge.is_some() {
             return Err("let-else".into());
+        }
+        if self.let_mut_call(pat, &init.expr)? || self.let_item_call(pat, &init.expr)? || self.let_match_assigning(pat, &init.expr)? {
+            return Ok(());
         }
         let ex = ann.clone().unwrap_or(T::Unknown);
         let (v, vt) = self.expr(&init.expr, &ex)?;
@@ -2748,6 +2793,7 @@ impl<'a> Cx<'a> {
                 }
                 self.fuel_loop(&l.body.stmts)
             }
+            Expr::While(w) => self.while_loop(w),
             Expr::MethodCall(m) => self.stmt_method(m),
             Expr::Call(c) => self.stmt_call(c),
             Expr::Macro(m) if is_skipped_macro(&m.mac) => Ok(()),
@@ -2817,7 +2863,7 @@ impl<'a> Cx<'a> {
         let st: Vec<&Stmt> = body.iter().collect();
         let outer = self.assigned_outer_stmts(&st, &[])?;
         if !outer.is_empty() {
-            return Err(format!("a loop over `&mut` elements that also assigns `{}`", outer.join("`, `")));
+            return self.map_accum_loop(&var, place, &filters, body, &outer);
         }
         let saved_locals = self.locals.clone();
         let saved_cur = std::mem::take(&mut self.cur);
@@ -3288,14 +3334,20 @@ impl<'a> Cx<'a> {
                         continue;
                     }
                     let ret_e = match &i.then_branch.stmts[0] {
-                        Stmt::Expr(Expr::Return(r), _) => r.expr.as_ref().ok_or("`return` without a value")?,
+                        Stmt::Expr(Expr::Return(r), _) => r.expr.as_ref(),
                         _ => unreachable!(),
                     };
+                    if ret_e.is_none() && *expect != T::Unit {
+                        return Err("`return` without a value".into());
+                    }
                     let (c, ct) = self.expr(&i.cond, &T::Bool)?;
                     if ct != T::Bool {
                         return Err("`if` condition is not a bool".into());
                     }
-                    let (a, at) = self.sub_expr_block(ret_e, expect)?;
+                    let (a, at) = match ret_e {
+                        Some(ret_e) => self.sub_expr_block(ret_e, expect)?,
+                        None => (Blk::val(X::a("()")), T::Unit),
+                    };
                     let (b, bt) = self.sub_block(&stmts[k + 1..], &at.join(expect))?;
                     if !at.compatible(&bt) {
                         return Err(format!("`return` of type {:?} in a block of type {:?}", at, bt));
@@ -3347,6 +3399,8 @@ pub struct FnPlan<'s> {
     pub ext_ret: bool,
     /// see `Cx::loop_fuel`
     pub loop_fuel: Option<String>,
+    /// see `tracks2::FnOpts`
+    pub opts: tracks2::FnOpts,
 }
 
 /// `impl Fn(*const (), f32) -> f32`: the calc resolver
@@ -3361,6 +3415,7 @@ pub fn translate_fn(w: &World, reg: &Reg, p: &FnPlan) -> R<(String, SFn)> {
     let mut cx = Cx::new(w, reg, p.self_ty.clone(), p.generics.clone());
     cx.lean_name = p.lean_name.clone();
     cx.loop_fuel = p.loop_fuel.clone();
+    cx.opts = p.opts.clone();
     for g in &p.sig.generics.params {
         if let syn::GenericParam::Type(t) = g {
             let name = t.ident.to_string();
@@ -3414,6 +3469,7 @@ pub fn translate_fn(w: &World, reg: &Reg, p: &FnPlan) -> R<(String, SFn)> {
                         syn::ReturnType::Default => T::Unit,
                         syn::ReturnType::Type(_, t) => cx.rust_ty(t)?,
                     };
+                    let ret = if ret == T::F32 && p.opts.ext_fn_params.iter().any(|x| *x == n) { T::Ext } else { ret };
                     T::Fn(tys, Box::new(ret))
                 } else {
                     match crate::emit::impl_traits(&t.ty) {
@@ -3456,6 +3512,13 @@ pub fn translate_fn(w: &World, reg: &Reg, p: &FnPlan) -> R<(String, SFn)> {
         comps.push(ret.clone());
     }
     let lean_ret = if comps.len() == 1 { comps[0].clone() } else { T::Tuple(comps.clone()) };
+    if p.opts.hoist_nested_fns {
+        for st in &p.block.stmts {
+            if let Stmt::Item(syn::Item::Fn(f)) = st {
+                cx.nested_fn(f)?;
+            }
+        }
+    }
     let (tail, bt) = cx.block_value(&p.block.stmts, &ret)?;
     if !ret.compatible(&bt) {
         return Err(format!("the body has type {:?}, declared {:?}", bt, ret));
@@ -3497,7 +3560,8 @@ pub fn translate_fn(w: &World, reg: &Reg, p: &FnPlan) -> R<(String, SFn)> {
         doc.push_str(d);
     }
     let rt = crate::emit::strip_parens(&cx.env.lean_ty(&lean_ret));
-    let ret_text = if eff { format!("Except GridTracks.GErr {}", cx.env.lean_ty(&lean_ret)) } else { rt };
+    let ret_text = if eff && p.opts.prog_mode { format!("Slice.ItemProg ι α {}", cx.env.lean_ty(&lean_ret)) } else if eff { format!("Except GridTracks.GErr {}", cx.env.lean_ty(&lean_ret)) } else { rt };
+    let binders = format!("{}{binders}", p.opts.extra_binders);
     let body = blk.render(2, eff);
     let kw = if eff { " do" } else { "" };
     let text = format!("{}/-- {doc} -/\ndef {}{ab}{binders} : {} :={kw}\n  {}\n\n", cx.nested_text, p.lean_name, ret_text, body);
